@@ -473,6 +473,8 @@ class DatasetProcessor:
         self.args.use_technical_replicas = self.args.read_group == "file_name" and len(sample.file_list) > 1
 
         self.all_read_groups = set()
+        # alignment statistics (incl. the number of unaligned reads written to the count tables) are per experiment
+        self.alignment_stat_counter = EnumStats()
         if self.args.resume and os.path.exists(sample.read_group_file + "_lock"):
             logger.info("Read group table was split during the previous run, existing files will be used")
         else:
